@@ -113,14 +113,10 @@ func lenMinusConst(v ssa.Value) (base ssa.Value, k int64, ok bool) {
 // Conditions: len(v) OP c, and n OP c where n := len(v) is a local.
 func (l *lbCtx) guardFacts(v ssa.Value, blk *ssa.BasicBlock) int64 {
 	var best int64
-	eachInstr(l.fn, func(in ssa.Instruction) {
-		iff, ok := in.(*ssa.If)
+	for _, f := range condFactsAt(l.fn, blk, 0) {
+		b, ok := f.cond.(*ssa.BinOp)
 		if !ok {
-			return
-		}
-		b, ok := iff.Cond.(*ssa.BinOp)
-		if !ok {
-			return
+			continue
 		}
 		var op token.Token
 		var cst int64
@@ -138,29 +134,89 @@ func (l *lbCtx) guardFacts(v ssa.Value, blk *ssa.BasicBlock) int64 {
 		// p < len(v) with p a non-negative index: len(v) >= 1
 		if !matched {
 			if k, ok := lenTermOf(b.Y, v); ok && k == 0 && (nonnegIndex(l.fn, b.X) || usedAsLowBoundBefore(l.fn, b.X, blk)) {
-				// p OP len(v)
 				switch b.Op {
 				case token.LSS:
-					op, cst, matched = token.GTR, 0, true // len > 0 on the true edge
+					op, cst, matched = token.GTR, 0, true
 				case token.GEQ:
-					op, cst, matched = token.LEQ, 0, true // len <= 0 on the true edge; false edge: len > 0
+					op, cst, matched = token.LEQ, 0, true
 				}
 			}
 		}
 		if !matched {
+			continue
+		}
+		lo, _ := factOnEdge(op, cst, f.edge)
+		if lo > best {
+			best = lo
+		}
+	}
+	return best
+}
+
+// condFact: the boolean value cond is known true (edge 0) / false (edge 1) at a block.
+type condFact struct {
+	cond ssa.Value
+	edge int
+}
+
+// condFactsAt: conditions decided on every path to blk: the conditions of the Ifs whose edge
+// dominates blk, and, where such a condition is the phi go/ssa builds for `a && b` / `a || b`
+// used as a value (the cases of a tagless switch), the conjuncts behind it: a short-circuit
+// phi that is true has all-false constants on its other edges, so control came through the
+// block that evaluated the last conjunct, and everything decided at that block holds too.
+func condFactsAt(fn *ssa.Function, blk *ssa.BasicBlock, depth int) []condFact {
+	var rv []condFact
+	if depth > 6 {
+		return rv
+	}
+	var expand func(cond ssa.Value, edge int, d int)
+	expand = func(cond ssa.Value, edge int, d int) {
+		rv = append(rv, condFact{cond, edge})
+		if d > 6 {
+			return
+		}
+		if u, ok := cond.(*ssa.UnOp); ok && u.Op == token.NOT {
+			expand(u.X, 1-edge, d+1)
+			return
+		}
+		phi, ok := cond.(*ssa.Phi)
+		if !ok {
+			return
+		}
+		// the only way the phi can have the value we know it has
+		want := edge == 0 // true?
+		nonConst := -1
+		for i, e := range phi.Edges {
+			if cb, isC := constBool(e); isC {
+				if cb == want {
+					return // a constant edge also yields this value: nothing more is known
+				}
+				continue
+			}
+			if nonConst >= 0 {
+				return
+			}
+			nonConst = i
+		}
+		if nonConst < 0 {
+			return
+		}
+		expand(phi.Edges[nonConst], edge, d+1)
+		pred := phi.Block().Preds[nonConst]
+		rv = append(rv, condFactsAt(fn, pred, depth+1)...)
+	}
+	eachInstr(fn, func(in ssa.Instruction) {
+		iff, ok := in.(*ssa.If)
+		if !ok {
 			return
 		}
 		for edge := 0; edge < 2; edge++ {
-			if !edgeDominates(iff, edge, blk) {
-				continue
-			}
-			lo, _ := factOnEdge(op, cst, edge)
-			if lo > best {
-				best = lo
+			if edgeDominates(iff, edge, blk) {
+				expand(iff.Cond, edge, 0)
 			}
 		}
 	})
-	return best
+	return rv
 }
 
 func sameValueSSA(a, b ssa.Value) bool {
